@@ -621,6 +621,11 @@ def ingestion_scenarios():
     sc["one model numbered 5, no END"] = (recs, [("A", "ALA", ["ATOM1"]), ("A", "GLY", ["ATOM2"])])
     recs = [_rec(A, 1, "N", "ALA", "A", 1, "", "A"), _rec(A, 2, "N", "ALA", "A", 1, "", "B"), _rec(A, 3, "CA", "ALA", "A", 1), _rec(A, 4, "N", "GLY", "A", -1)]
     sc["alternate locations and a negative number, no trailer at all"] = (recs, [("A", "ALA", ["ATOM1", "ATOM2", "ATOM3"]), ("A", "GLY", ["ATOM4"])])
+    # chain identifiers are labels: any letter or digit may occur next to records that carry none (waters after the chains)
+    recs = [_rec(A, 1, "N", "ALA", "A", 1), _rec(A, 2, "N", "GLY", "Z", 1), _rec(A, 3, "CA", "GLY", "Z", 1), _rec(A, 4, "N", "SER", "z", 7),
+            _rec(A, 5, "N", "SER", "9", 7), _rec(H, 6, "O", "HOH", "", 201), _rec(H, 7, "O", "HOH", "", 202), _mark("END")]
+    sc["chains A, Z, z and 9 followed by waters without a chain identifier"] = (recs, [
+        ("A", "ALA", ["ATOM1"]), ("Z", "GLY", ["ATOM2", "ATOM3"]), ("z", "SER", ["ATOM4"]), ("9", "SER", ["ATOM5"]), ("", "HOH", ["HETATM6"]), ("", "HOH", ["HETATM7"])])
     return sc
 
 
